@@ -74,9 +74,19 @@ ITER_KINDS = {
     'tags': lambda w, a: ((plain(t.entry), getattr(t, 'needed', None)) for t in w.elf.get_section_by_name('.dynamic').iter_tags()),
     'notes': lambda w, a: (plain(n) for n in w.elf.get_section_by_name(a).iter_notes()),
     'CUs': lambda w, a: (cu.cu_offset for cu in w.dw.iter_CUs()),
+    'dynseg_symbols': lambda w, a: ((s.name, plain(s.entry)) for s in _dynseg(w).iter_symbols()),
+    'dynseg_tags': lambda w, a: ((plain(t.entry), getattr(t, 'needed', None)) for t in _dynseg(w).iter_tags()),
+    'noteseg': lambda w, a: (plain(n) for n in [s for s in w.elf.iter_segments() if type(s).__name__ == 'NoteSegment'][0].iter_notes()),
+    'siblings': lambda w, a: (die_obs(d) for d in w.dw.get_DIE_from_refaddr(a).iter_siblings()),
+    'TUs': lambda w, a: (tu.tu_offset for tu in w.dw.iter_TUs()),
+    'relocs': lambda w, a: (plain(r.entry) for r in w.elf.get_section_by_name(a).iter_relocations()),
     'DIEs': lambda w, a: (die_obs(d) for d in w.dw.get_CU_at(a).iter_DIEs()),
     'children': lambda w, a: (die_obs(d) for d in w.dw.get_DIE_from_refaddr(a).iter_children()),
 }
+
+
+def _dynseg(w):
+    return [s for s in w.elf.iter_segments() if type(s).__name__ == 'DynamicSegment'][0]
 
 
 def apply(w, ev):
@@ -268,7 +278,7 @@ class C10Model(H.Model):
         return self.fresh_obs(ev)
 
 
-def derive_events(data, max_dies=40, iterators=True, scramble=True, light=False):
+def derive_events(data, max_dies=40, iterators=True, scramble=True, light=False, all_iters=None):
     """Event alphabet derived from the file itself (fresh object, independent of any history)."""
     w = World(data)
     elf = w.elf
@@ -356,6 +366,35 @@ def derive_events(data, max_dies=40, iterators=True, scramble=True, light=False)
         iters.append(('CUs', None))
     elif elf.get_section_by_name('.eh_frame') is not None:
         ev.append(('EH_CFI',))
+    # iterators only the interleaving family (pass C) uses: the BFS alphabet stays small
+    more = [('segments', None)]
+    for sn in ('.dynsym',):
+        sec = elf.get_section_by_name(sn)
+        if sec is not None and type(sec).__name__ == 'SymbolTableSection':
+            more.append(('symbols', sn))
+    if any(type(s).__name__ == 'DynamicSegment' for s in elf.iter_segments()):
+        more += [('dynseg_symbols', None), ('dynseg_tags', None)]
+    if elf.get_section_by_name('.dynamic') is not None and type(elf.get_section_by_name('.dynamic')).__name__ == 'DynamicSection':
+        more.append(('tags', None))
+    for s in elf.iter_sections():
+        if type(s).__name__ == 'NoteSection':
+            more.append(('notes', s.name))
+            break
+    if any(type(s).__name__ == 'NoteSegment' for s in elf.iter_segments()):
+        more.append(('noteseg', None))
+    for s in elf.iter_sections():
+        if type(s).__name__ == 'RelocationSection':
+            more.append(('relocs', s.name))
+            break
+    if has_dw:
+        if w.dw.debug_types_sec is not None:
+            more.append(('TUs', None))
+        for e in ev:
+            if e[0] == 'siblings':
+                more.append(('siblings', e[1]))
+                break
+    if all_iters is not None:
+        all_iters.extend(iters + [m for m in more if m not in iters])
     if iterators:
         for slot in (0, 1):
             for kind, arg in iters[: (8 if not light else 3)]:
@@ -390,6 +429,25 @@ def corpus_files(limit):
     return out
 
 
+def interleaving_family(events, iters, pairs=True):
+    """Pass C: every suspended iterator x every other event, at two split points, and every ordered pair of iterators stepped alternately.
+    -> (alphabet, histories)"""
+    others = [e for e in events if e[0] not in ('open', 'next', 'drop')]
+    hs = []
+    for kind, arg in iters:
+        o = ('open', kind, arg, 0)
+        for x in others:
+            for p in (1, 2):
+                hs.append((o,) + (('next', 0),) * p + (x, ('next', 0), ('next', 0)))
+        hs.append((o,) + (('next', 0),) * 8)
+    if pairs:
+        for k1, a1 in iters:
+            for k2, a2 in iters:
+                hs.append((('open', k1, a1, 0), ('open', k2, a2, 1)) + (('next', 0), ('next', 1)) * 3)
+    alphabet = others + [('open', k, a, sl) for k, a in iters for sl in (0, 1)] + [('next', 0), ('next', 1)]
+    return alphabet, hs
+
+
 # ---- the check is organised as bulk "units": each unit is one (system, pass) exploration ----------------
 
 QUICK_CORPUS = ['gcc_tailcall.o.elf', 'clang33-simple.o', 'compressed_32.o', 'lineprogram.elf', 'arm-eabi-attr-names.o.elf', 'trailing_null_dies.elf']
@@ -398,14 +456,16 @@ QUICK_CORPUS = ['gcc_tailcall.o.elf', 'clang33-simple.o', 'compressed_32.o', 'li
 def _units(tier):
     quick = tier == 'quick'
     if quick:
-        u = [('M0', 'A', 2), ('M1', 'A', 2), ('M0', 'B', 2), ('M1', 'B', 2), ('M0n', 'B', 3)]
+        u = [('M0', 'A', 2), ('M1', 'A', 2), ('M1', 'C', 8), ('M2', 'C', 8), ('M0', 'B', 2), ('M1', 'B', 2), ('M0n', 'B', 3)]
         for name, d in corpus_files(4096):
             if name in QUICK_CORPUS:
                 u.append(('corpus:' + name, 'A', 2))
         return u
-    u = [('M0', 'A', 2), ('M1', 'A', 2), ('M2', 'A', 2), ('M0n', 'B', 40), ('M0', 'B', 5), ('M1', 'B', 4), ('M2', 'B', 3)]
+    u = [('M0', 'A', 2), ('M1', 'A', 2), ('M2', 'A', 2), ('M0', 'C', 8), ('M1', 'C', 8), ('M2', 'C', 8), ('M0n', 'B', 40), ('M0', 'B', 5), ('M1', 'B', 4), ('M2', 'B', 3)]
     for name, d in corpus_files(4096):
         u.append(('corpus:' + name, 'A', 2))
+    for name, d in corpus_files(4096):
+        u.append(('corpus:' + name, 'C', 8))
     return u
 
 
@@ -420,7 +480,8 @@ def explore_unit(system, pass_, depth, tier, deadline):
         data = model_file('M0' if system == 'M0n' else system)
         light = False
     try:
-        events = derive_events(data, max_dies=(40 if not light else 12), iterators=(system != 'M0n'), scramble=(pass_ == 'B'), light=light)
+        all_iters = []
+        events = derive_events(data, max_dies=(40 if not light else 12), iterators=(system != 'M0n'), scramble=(pass_ in 'BC'), light=light, all_iters=all_iters)
         if system == 'M0n':
             # the saturation model: DWARF queries only (ELF-level queries create no state), no suspended generators
             events = [e for e in events if e[0] in ('iter_CUs', 'CU_at', 'CU_containing', 'top_DIE', 'dump', 'DIE_at', 'parent', 'children', 'siblings', 'follow',
@@ -434,6 +495,14 @@ def explore_unit(system, pass_, depth, tier, deadline):
     fsecs, fmeta = payloads.make('m1' if system in ('M0', 'M0n') else 'm0', data[5] == 1, 32, 8 if data[4] == 2 else 4)
     _FOREIGN['data'] = elfwrap.wrap(fsecs, 64 if data[4] == 2 else 32, data[5] == 1, with_symbols=True, seed=77, addresses=fmeta['addresses'])[0]
     model = C10Model(system, data, events)
+    if pass_ == 'C':
+        alphabet, hs = interleaving_family(events, all_iters, pairs=not light)
+        r = H.run_histories(model, alphabet, hs, normalise=False, deadline=deadline)
+        r['system'] = system
+        r['events'] = len(alphabet)
+        r['iterators'] = len(all_iters)
+        r['model'] = model
+        return r
     r = H.bfs(model, events, depth, normalise=(pass_ == 'B'), dedupe=(pass_ == 'B'), deadline=deadline)
     r['system'] = system
     r['events'] = len(events)
@@ -475,7 +544,9 @@ def custom_check(tier, seed):
     a['samples'] = [{'system': u['system'], 'pass': u['pass'], 'events': u.get('events'), 'per_level': u.get('per_level')} for u in units[:4] if not u.get('skipped')]
     caps = [('%s/%s: %s' % (u['system'], u['pass'], u.get('capped') or u.get('skipped'))) for u in units if u.get('capped') or u.get('skipped')]
     extra = {'units': units, 'caps_hit': caps, 'exhaustive': not caps,
-             'explanation_of_passes': 'A = all histories of length <= 2 with natural cursor positions; B = BFS with fingerprint de-duplication, cursors reset after each event, scramble(p) explicit'}
+             'explanation_of_passes': 'A = all histories of length <= 2 with natural cursor positions; B = BFS with fingerprint de-duplication, cursors reset after each event, scramble(p) explicit; '
+             'C = interleaving family: every iterator of the file suspended after 1 or 2 items x every other event (incl. scramble, foreign) then resumed twice, every iterator run to 8 items, '
+             'and every ordered pair of iterators stepped alternately; every step compared with the pristine-process iteration'}
     failures = []
     for v in agg['violations']:
         labels = ['%s/%s' % (v['system'], v['pass_'])] + [repr(tuple(e)) for e in v['history']]
